@@ -428,6 +428,40 @@ type vStateWrap struct {
 	s *vSim
 }
 
+// vFaultStore: a transient "database busy" fault. While armed, the Write of the next State.Add of a RECEIVED transaction
+// fails the way go-stoabs' bbolt store does when the write lock can not be obtained in time: before a transaction exists,
+// so neither the function nor the OnRollback / AfterCommit hooks run
+type vFaultStore struct {
+	stoabs.KVStore
+	armed int
+	inAdd bool
+	fired int
+}
+
+func (f *vFaultStore) Write(ctx context.Context, fn func(stoabs.WriteTx) error, opts ...stoabs.TxOption) error {
+	if f.armed > 0 && f.inAdd {
+		f.armed--
+		f.fired++
+		return fmt.Errorf("unable to obtain BBolt write lock: %w", context.DeadlineExceeded)
+	}
+	return f.KVStore.Write(ctx, fn, opts...)
+}
+
+func (w *vStateWrap) Add(ctx context.Context, tx dag.Transaction, payload []byte) error {
+	f := w.n.fstore
+	before := f.fired
+	f.inAdd = true
+	err := w.State.Add(ctx, tx, payload)
+	f.inAdd = false
+	if f.fired != before {
+		if t := w.s.u.byRef[tx.Ref()]; t != nil {
+			idx := t.idx
+			w.s.faultTx = &idx
+		}
+	}
+	return err
+}
+
 type vAsyncReq struct {
 	n    *vNode
 	ev   dag.Event
@@ -522,6 +556,7 @@ type vNode struct {
 	p      *protocol
 	st     dag.State
 	store  stoabs.KVStore
+	fstore *vFaultStore
 	conns  map[int]*vConn
 	list   *vConnList
 	added  map[hash.SHA256Hash]bool
@@ -548,11 +583,15 @@ func (s *vSim) newNode(id int, cfg vNodeCfg, dir string) *vNode {
 func (s *vSim) open(n *vNode) {
 	id, cfg, dir := n.id, n.cfg, n.dir
 	path := filepath.Join(dir, fmt.Sprintf("node%d.db", id))
-	store, err := bbolt.CreateBBoltStore(path, stoabs.WithNoSync())
+	inner, err := bbolt.CreateBBoltStore(path, stoabs.WithNoSync())
 	if err != nil {
 		panic(err)
 	}
-	st, err := dag.NewState(store, dag.NewPrevTransactionsVerifier(), dag.NewTransactionSignatureVerifier(nil))
+	// the state works on the fault-injecting wrapper; the persistent notifiers are given the store itself (they insist on
+	// being handed transactions of the very store object they were created with)
+	n.fstore = &vFaultStore{KVStore: inner}
+	var store stoabs.KVStore = inner
+	st, err := dag.NewState(n.fstore, dag.NewPrevTransactionsVerifier(), dag.NewTransactionSignatureVerifier(nil))
 	if err != nil {
 		panic(err)
 	}
@@ -684,9 +723,13 @@ type vSim struct {
 	dc          map[string]*[3]int       // bucket -> [attempts, success, exact-when-success]
 	injected    map[hash.SHA256Hash]bool // refs of invalid transactions shown to any node
 	deliveries  int
-	restartAt   map[int]int // fair-suffix round -> node to restart before it
-	changed     []string    // queued messages whose bytes changed between Send and the moment the stream writes them
-	oversize    []string    // messages the real senders produced that exceed the gRPC message size limit
+	restartAt   map[int]int   // fair-suffix round -> node to restart before it
+	faultAt     map[int][]int // fair-suffix round -> nodes whose database is busy for the next Add
+	faults      int           // "database busy" faults armed in this scenario (switches the per-step watchdog on)
+	faultTx     *int          // the transaction whose Add hit the fault in the current step
+	scFirst     int           // index of the scenario op
+	changed     []string      // queued messages whose bytes changed between Send and the moment the stream writes them
+	oversize    []string      // messages the real senders produced that exceed the gRPC message size limit
 	goid        string
 	asyncCh     chan vAsyncReq
 	expectAsync int
@@ -914,6 +957,8 @@ func vClassify(err error) string {
 	}
 	m := err.Error()
 	switch {
+	case strings.Contains(m, "unable to obtain BBolt write lock"):
+		return "err:db-busy"
 	case strings.Contains(m, "unknown or expired conversation"):
 		return "err:unknown-conv"
 	case errors.Is(err, errIncorrectEnvelopeType):
@@ -1126,6 +1171,7 @@ type vOp struct {
 	Note    string     `json:"note,omitempty"`
 	Case    string     `json:"case,omitempty"`
 	Mode    string     `json:"mode,omitempty"`
+	Fault   *int       `json:"fault,omitempty"` // observed: the Add of this transaction failed with "database busy"
 	MaxMsg  int        `json:"maxmsg,omitempty"`
 	Runs    [][3]int   `json:"runs,omitempty"`
 }
@@ -1270,10 +1316,32 @@ func (s *vSim) receive(op *vOp, src, dst int, wire []byte, peerSet map[hash.SHA2
 	return fmt.Sprintf("ret=%s %s %s", ret, s.sentLine(), n.stLine())
 }
 
+// a step that does not finish: a handler (or the transaction creation) is blocked for ever. Reported with the prefix as
+// replay; the process can not go on (the simulator goroutine is the one that is blocked)
+const vHangTimeout = 12 * time.Second
+
+func (s *vSim) reportHang(op *vOp) {
+	s.out.emit(vJSON(op), "HANG step does not return")
+	fmt.Fprintln(s.out.oracle, vJSON(map[string]interface{}{"kind": "hang", "scenario": s.sc.Name, "first_op": s.scFirst, "last_op": s.out.nOps - 1,
+		"what": fmt.Sprintf("step %s does not return within %s: the handler is blocked", vJSON(op), vHangTimeout)}))
+	s.out.close()
+	os.Exit(0)
+}
+
 func (s *vSim) exec(op *vOp) {
+	if s.faults > 0 {
+		wd := time.AfterFunc(vHangTimeout, func() { s.reportHang(op) })
+		defer wd.Stop()
+	}
 	s.curSent = nil
+	s.faultTx = nil
+	op.Fault = nil
 	line := ""
 	switch op.Op {
+	case "fault":
+		s.faults++
+		s.nodes[op.N].fstore.armed = 1
+		line = "fault armed"
 	case "tick":
 		n := s.nodes[op.N]
 		c := n.conns[op.Peer]
@@ -1359,6 +1427,7 @@ func (s *vSim) exec(op *vOp) {
 	default:
 		line = "bad-op:" + op.Op
 	}
+	op.Fault = s.faultTx
 	s.out.emit(vJSON(op), line)
 }
 
@@ -1410,6 +1479,9 @@ func (s *vSim) startScenario(sc vScenario, dir string) {
 	s.injected = map[hash.SHA256Hash]bool{}
 	s.curSent = nil
 	s.restartAt = nil
+	s.faultAt = nil
+	s.faults = 0
+	s.scFirst = s.out.nOps
 	s.oversize = nil
 	s.changed = nil
 	s.deliveries = 0
@@ -1530,6 +1602,10 @@ func (s *vSim) fairSuffix(maxRounds int, expireEvery int) (rounds int) {
 		if s.allEqual() && len(s.pending) == 0 {
 			return rounds
 		}
+		for _, node := range s.faultAt[rounds] {
+			s.exec(&vOp{Op: "fault", N: node})
+		}
+		delete(s.faultAt, rounds)
 		if expireEvery > 0 && rounds%expireEvery == 0 {
 			for _, n := range s.nodes {
 				s.exec(&vOp{Op: "advance", N: n.id, Dt: s.sc.Validity + 1})
